@@ -96,9 +96,7 @@ def compare_labels(st, fmt, lang, t, ws, orig, back, fam):
             elif not any(r.head_is_left == b.head_is_left for r in opts if r.op_string == b.op_string):
                 _bad(st, fmt, lang, t, ws, 'head_direction', f'node {a.left_child.cat} {a.right_child.cat} -> {a.cat}: read back with head_is_left={b.head_is_left}')
         else:
-            st.count('reader_nodes_underivable')
-            if b.op_string != 'unk':
-                _bad(st, fmt, lang, t, ws, 'underivable_label', f'underivable node {a.left_child.cat} {a.right_child.cat} -> {a.cat} read back with label {b.op_string!r}')
+            st.count('reader_nodes_underivable')      # the statement leaves the label of an underivable node open
         rec(a.left_child, b.left_child)
         rec(a.right_child, b.right_child)
     try:
